@@ -81,7 +81,7 @@ class C16(Prop):
         rnd = random.Random(seed)
         proj = os.path.join(wd, "proj")
         items = []
-        ncli = max(60, n // 3)
+        ncli = max(300, n // 2)
         for i in range(ncli):
             pd = os.path.join(proj, str(i))
             os.makedirs(pd, exist_ok=True)
@@ -99,10 +99,18 @@ class C16(Prop):
                     names = [prefix + str(j) for j in range(rnd.randint(1, 3))]
                     tail = rnd.choice([None, None, "lua51", "lua52", "lua53", "luau"])
                     ch = []
+                    # a quarter of the chains end in a file that only selects a dialect, under files that select none
+                    dialect_only_tail = len(names) > 1 and rnd.randint(0, 3) == 0
                     for j, nm in enumerate(names):
                         vs = rnd.choice([[], [], [rnd.choice(VNAMES)], [rnd.choice(VNAMES), rnd.choice(VNAMES)], ["lua51"]])
+                        if dialect_only_tail:
+                            vs = [rnd.choice(VNAMES)] if j == len(names) - 1 else []
                         base = names[j + 1] if j + 1 < len(names) else tail
-                        doc = {"globals": {"print": {"args": [{"type": "..."}]}}}
+                        # a third of the files define no global at all (a library that only selects a dialect)
+                        g = rnd.randint(0, 5)
+                        if dialect_only_tail:
+                            g = 0 if j == len(names) - 1 else 5
+                        doc = {} if g == 0 else ({"globals": {}} if g == 1 else {"globals": {"print": {"args": [{"type": "..."}]}}})
                         if vs:
                             doc["lua_versions"] = vs
                         if base:
